@@ -52,7 +52,8 @@ def _leaf():
       st.sampled_from([0.5, -0.0, 1e308, {'$f': 'inf'}, {'$f': '-inf'}, {'$f': 'nan'}, 2 ** 63, -2 ** 63]),
       st.sampled_from(['é☃', '\x00\x01\x1f', 'a\nb\tc', '"quoted"\\', '😀'.encode('utf-16', 'surrogatepass').decode('utf-16'),
                        '𝄞', ' ']),
-      st.sampled_from([{'$cls': 'P'}, {'$cls': 'Typed'}, {'$cls': 'int'}, {'$fn': 'module'}, {'$fn': 'lambda'}]),
+      st.sampled_from([{'$cls': 'P'}, {'$cls': 'Typed'}, {'$cls': 'int'}, {'$fn': 'module'}, {'$fn': 'lambda'}, {'$fn': 'builtin'},
+                       {'$fn': 'builtin_of_module'}]),
       st.sampled_from([{'$o': 'Req', 'a': {}}, {'$o': 'Req', 'a': {'r': 2}}]),
       st.sampled_from([{'$o': 'DV', 'a': {'d': {'$d': [['k', 1], ['u1', 5], ['u2', 6]]}}}, {'$o': 'DV', 'a': {'f': {'$d': [['a', 1], ['b', 1]]}}},
                        {'$o': 'DV', 'a': {'d': {'$d': [['u9', 5]]}, 'f': {'$d': [['q', 1]]}}}]),
@@ -99,7 +100,7 @@ def build(d, symbolic):
     if '$cls' in d:
       return {'P': classes.P, 'Typed': classes.Typed, 'int': int}.get(d['$cls'], classes.P)
     if '$fn' in d:
-      return module_fn if d['$fn'] == 'module' else LAMBDA
+      return {'module': module_fn, 'builtin': len, 'builtin_of_module': math.sqrt}.get(d['$fn'], LAMBDA)
     if '$spec' in d:
       try:
         return specs.to_spec(d['$spec'])
@@ -306,7 +307,7 @@ def _value_case(case, res):
   if not feats.get('$fn') or True:
     routes.append(('pickle', lambda: pickle.loads(pickle.dumps(v))))
   for name, fn in routes:
-    if name == 'pickle' and feats.get('$fn'):
+    if name == 'pickle' and 'lambda' in json.dumps(desc):
       continue    # lambdas cannot be pickled by Python itself
     try:
       w = fn()
